@@ -226,6 +226,21 @@ impl C10 {
         for c in cuts {
             self.probe(cx, &bytes[..c], true, class, &mut st);
         }
+        // a stream cut at a record boundary and filled up with NUL bytes (tape / block padding, a file truncated and zero-extended, a sparse
+        // copy): it still ends before its end-of-library record, whatever the padding looks like to a lenient reader
+        let mut padded_cuts = 0;
+        for (k, o) in offsets.iter().enumerate() {
+            if *o == 0 || (offsets.len() > 64 && k % (offsets.len() / 32) != 0 && k + 3 < offsets.len()) {
+                continue;
+            }
+            for pad in [2usize, 4, 6, 2048 - (*o % 2048)] {
+                let mut v = bytes[..*o].to_vec();
+                v.resize(*o + pad, 0);
+                self.probe(cx, &v, true, class, &mut st);
+                padded_cuts += 1;
+            }
+        }
+        cx.count_n("truncations_padded_with_nul", padded_cuts);
         // and the whole stream is accepted (sanity of the seed)
         let mut st2 = Stats::default();
         self.probe(cx, bytes, false, class, &mut st2);
